@@ -8,6 +8,6 @@ trap 'git -C /repo worktree remove --force $W' EXIT
 git -C $W apply $D/patch.diff || exit 3
 for c in "$@"; do
   s=$(date +%s)
-  out=$(cd /verif && PYTHONPATH=/verif/harness:$W SYNRBL_REPO=$W SYNRBL_VERIF=1 PYTHONWARNINGS=ignore /venv/bin/python harness/run_check.py $c 2>&1 | grep -E "^OK|^FAIL|VIOLATION|ERROR" | tr '\n' ' ' | cut -c1-220)
+  out=$(cd /verif && PYTHONPATH=/verif/harness:$W SYNRBL_REPO=$W SYNRBL_VERIF_EVIDENCE_DIR=$W/.evidence SYNRBL_VERIF=1 PYTHONWARNINGS=ignore /venv/bin/python harness/run_check.py $c 2>&1 | grep -E "^OK|^FAIL|VIOLATION|ERROR" | tr '\n' ' ' | cut -c1-220)
   echo "[$(basename $D) $c $(( $(date +%s) - s ))s] $out"
 done
